@@ -288,7 +288,9 @@ def runMonitor (prop : String) (cx : Ctx) : List Finding :=
   | "C01" => monitorC01 cx ++ (if cx.anyDisconnect then [] else monitorPanics cx "C01")
   | "C02" => monitorC02 cx
   | "C03" => monitorC03 cx
-  | "C04" => monitorC04 cx
+  | "C04" => monitorC04 cx ++
+      -- the library's own window assertions firing is the same violation, seen from inside
+      (if cx.anyDisconnect then [] else monitorPanics cx "C04")
   | _ => []
 
 end Ggrs.Driver
